@@ -21,12 +21,12 @@ RULE = ('cases are histories of 3-8 signing operations, each followed by a contr
         'peer\'s view of signer/hash input/integers changed) reached PGPKey.verify and its verdict was compared with the '
         'ledger; distinct = distinct (signature kind, fault kind) multisets among non-trivial runs')
 TIERS = {'quick': {'runs': 3000, 'budget_s': 80}, 'thorough': {'runs': 250000, 'budget_s': 1500}}
-PROBES = ('issuer_rewrite_to_encryption_subkey', 'control_verified', 'ledger_entry_not_ref_valid', 'control_failed', 'nonsemantic_skipped', 'mutant_rejected_raise', 'mutant_rejected_falsy',
+PROBES = ('str_subject_with_lone_surrogate', 'issuer_rewrite_to_encryption_subkey', 'control_verified', 'ledger_entry_not_ref_valid', 'control_failed', 'nonsemantic_skipped', 'mutant_rejected_raise', 'mutant_rejected_falsy',
           'ref_unparsable_skipped', 'splice_cross_history', 'issuer_rewrite', 'subkey_signer', 'msg_multi_signer',
           'verifier_behind_signer', 'sig_expired_at_verify')
 FAULTS = ('sig_mpi_widen', 'sig_flip_hdr', 'sig_flip_hlen', 'sig_flip_hashed', 'sig_flip_mpi', 'sig_type', 'sig_halg', 'sig_pkalg', 'issuer_rewrite',
           'doc_flip', 'doc_append', 'doc_truncate', 'doc_eol', 'uid_edit', 'uid_swap', 'key_flip', 'key_ctime', 'subkey_swap',
-          'target_swap', 'splice_sig', 'msg_literal_flip', 'msg_sig_flip', 'cleartext_edit', 'sp_value')
+          'target_swap', 'splice_sig', 'msg_literal_flip', 'msg_sig_flip', 'cleartext_edit', 'sp_value', 'doc_surrogate')
 
 TYPE_SWAPS = {0x00: [0x01, 0x02], 0x01: [0x00, 0x02], 0x02: [0x40, 0x00], 0x40: [0x02, 0x00], 0x10: [0x11, 0x13, 0x30], 0x11: [0x10, 0x12],
               0x12: [0x13, 0x10], 0x13: [0x10, 0x30, 0x16], 0x16: [0x13, 0x10], 0x18: [0x19, 0x28], 0x19: [0x18], 0x1F: [0x20],
@@ -247,6 +247,20 @@ def mutate(art, d, w, history, ctx):
             if s['t'] != 'doc':
                 return None
             data = s['data']
+            if f == 'doc_surrogate':
+                # a str subject as the file system or a lenient decoder hands it over: one character (a '?', or one outside
+                # latin-1) replaced by a lone surrogate.  Another text; if it cannot be encoded, that is an error, not a match
+                if not s.get('as_str'):
+                    return None
+                text = data.decode('utf-8')
+                cands = [i for i, ch in enumerate(text) if ch == '?' or ord(ch) > 0xFF]
+                if not cands:
+                    return None
+                i = cands[d['alt'] % len(cands)]
+                s['str_override'] = text[:i] + chr(0xDC80 + d['alt'] % 0x7F) + text[i + 1:]
+                s['data'] = s['str_override'].encode('utf-8', 'surrogatepass')
+                ctx.probe('str_subject_with_lone_surrogate')
+                return a, True
             if f == 'doc_flip':
                 if not data:
                     return None
